@@ -84,7 +84,8 @@ def lines_for(c):
     n, L = effective(c)
     ierr = False
     if c.get("quote"):
-        # an unterminated quote behind the arguments: they are delivered all the same (C04_input_error_keeps_arguments)
+        # an unterminated quote behind the arguments: whole batches only, the one being collected is not run
+        # (C04_input_error_runs_whole_batches; pinned by the repository's xargs_unterminated_quote)
         if data and data[-1:] not in (b" ", b"\n", b"\t"):
             data += b" "
         data += b"'zz"
